@@ -227,7 +227,7 @@ theorem applyOneA_keysNodup {s : AMap} (h : AKeysNodup s) (e : Event) : AKeysNod
 theorem authStepA_toSMap (m : List Event) (rej : List ID) (s : AMap) (e : Event) :
     (authStepA m rej s e).toSMap = authStep m rej s.toSMap e := by
   unfold authStepA authStep
-  generalize allowedFreshNoValid e (Provider.ofEvents (providerEvents m rej s.toSMap e)) false = v
+  generalize allowedFresh e (Provider.ofEvents (providerEvents m rej s.toSMap e)) false = v
   cases v with
   | ok => exact applyOneA_toSMap s e
   | _ => rfl
@@ -235,7 +235,7 @@ theorem authStepA_toSMap (m : List Event) (rej : List ID) (s : AMap) (e : Event)
 theorem authStepA_keysNodup (m : List Event) (rej : List ID) {s : AMap} (h : AKeysNodup s) (e : Event) :
     AKeysNodup (authStepA m rej s e) := by
   unfold authStepA
-  generalize allowedFreshNoValid e (Provider.ofEvents (providerEvents m rej s.toSMap e)) false = v
+  generalize allowedFresh e (Provider.ofEvents (providerEvents m rej s.toSMap e)) false = v
   cases v with
   | ok => exact applyOneA_keysNodup h e
   | _ => exact h
